@@ -15,7 +15,7 @@ type (
 	Addr     = net.Addr
 	Error    = net.Error
 	OpError  = net.OpError
-	TCPConn  = net.TCPConn
+	TCPConn  = Endpoint // conn.(*net.TCPConn) in the code under test names the simulated socket
 	TCPAddr  = net.TCPAddr
 	IP       = net.IP
 )
